@@ -29,8 +29,10 @@ func readIref(b *box) (err error) {
 		if logLevelInfo() {
 			logInfoBox(&inner).Send()
 		}
-		if err = inner.close(); err != nil && logLevelError() {
-			logError().Object("box", inner).Err(err).Send()
+		if err = inner.close(); err != nil {
+			if logLevelError() {
+				logError().Object("box", inner).Err(err).Send()
+			}
 			break
 		}
 	}
